@@ -207,7 +207,9 @@ fn op_strategy() -> impl Strategy<Value = Op> {
 }
 
 fn case_strategy(max_ops: usize) -> impl Strategy<Value = Case> {
-    (0u8..3, prop_oneof![3 => Just(true), 1 => Just(false)], proptest::collection::vec(op_strategy(), 3..max_ops))
+    // variant % 3 = chain spec; variant / 3 == 1 = a pool whose max_tx_verify_cycles (600) lies
+    // below the cost of a transaction with two script groups (2 x 537 cycles)
+    (0u8..6, prop_oneof![3 => Just(true), 1 => Just(false)], proptest::collection::vec(op_strategy(), 3..max_ops))
         .prop_map(|(variant, mine, ops)| Case { variant, mine, ops })
 }
 
@@ -320,9 +322,16 @@ struct World<'a> {
     now: u64,
     serial: u32,
     min_fee_rate: ckb_types::core::FeeRate,
+    /// the pool's max_tx_verify_cycles when the case runs with the small budget
+    small_verify_budget: Option<u64>,
     known_sigs: &'a BTreeSet<String>,
     strict: bool,
 }
+
+/// cycles of one always_success script group
+const ALWAYS_SUCCESS_CYCLES: u64 = 537;
+/// max_tx_verify_cycles of the small-budget variant: one script group fits, two do not
+const SMALL_VERIFY_BUDGET: u64 = 600;
 
 fn tx_hash(tx: &TransactionView) -> TxH {
     h32(&tx.hash())
@@ -376,6 +385,23 @@ impl World<'_> {
         }
         m
     }
+}
+
+/// number of distinct lock scripts among the inputs of a generated transaction (all scripts are
+/// always_success with different args; outputs carry no type script), i.e. its script groups; None
+/// when an input cell is not one the machine knows
+fn script_groups(w: &World, tx: &TransactionView) -> Option<usize> {
+    let gst = &w.tree.get(&w.tree.genesis).state;
+    let mut locks = BTreeSet::new();
+    for i in tx.inputs().into_iter() {
+        let key = cell_key(&i.previous_output());
+        let out = match w.known.get(&key.0) {
+            Some(k) => k.tx.outputs().get(key.1 as usize)?,
+            None => gst.live.get(&key)?.output.clone(),
+        };
+        locks.insert(out.lock().as_slice().to_vec());
+    }
+    Some(locks.len())
 }
 
 fn fee_for(class: u8, min: u64) -> u64 {
@@ -1021,6 +1047,11 @@ fn check_pool(w: &mut World, change: Option<Change>, st: &mut Stats) -> Result<C
                             Ok(()) if present => {
                                 report.readded += 1;
                                 st.label("detached-tx:readded");
+                                if let (Some(budget), Some(groups)) = (w.small_verify_budget, script_groups(w, &w.known[h].tx)) {
+                                    if groups as u64 * ALWAYS_SUCCESS_CYCLES > budget {
+                                        st.label("detached-tx:readded:cycles-above-max_tx_verify_cycles");
+                                    }
+                                }
                             }
                             Ok(()) => {
                                 let k = &w.known[h];
@@ -1033,6 +1064,11 @@ fn check_pool(w: &mut World, change: Option<Change>, st: &mut Stats) -> Result<C
                                 }
                                 if k.tx.inputs().into_iter().any(|i| pv.has_output(&cell_key(&i.previous_output()))) {
                                     q.push("with-pooled-parent");
+                                }
+                                if let (Some(budget), Some(groups)) = (w.small_verify_budget, script_groups(w, &k.tx)) {
+                                    if groups as u64 * ALWAYS_SUCCESS_CYCLES > budget {
+                                        q.push("cycles-above-max_tx_verify_cycles");
+                                    }
                                 }
                                 let sig = format!("lost:admissible-detached-tx-not-readded{}{}", if q.is_empty() { "" } else { ":" }, q.join("+"));
                                 findings.push(Finding {
@@ -1226,6 +1262,7 @@ fn after_block(w: &mut World, old_tip: &H, pool_before: &PoolView, delivered: &H
 
 fn prop(case: &Case, st: &mut Stats, known_sigs: &BTreeSet<String>, strict: bool) -> Verdict {
     let cfg = variant_cfg(case.variant);
+    let small_budget = case.variant / 3 == 1;
     let env = build_env(&cfg);
     install_panic_recorder();
     clear_panics();
@@ -1235,6 +1272,13 @@ fn prop(case: &Case, st: &mut Stats, known_sigs: &BTreeSet<String>, strict: bool
         &env,
         NodeCfg {
             block_assembler: if case.mine { Some(assembler_cfg(&env)) } else { None },
+            tx_pool: if small_budget {
+                let mut c = TxPoolConfig::default();
+                c.max_tx_verify_cycles = SMALL_VERIFY_BUDGET;
+                Some(c)
+            } else {
+                None
+            },
             ..Default::default()
         },
     )
@@ -1254,10 +1298,14 @@ fn prop(case: &Case, st: &mut Stats, known_sigs: &BTreeSet<String>, strict: bool
         now: 10_000_000,
         serial: 0,
         min_fee_rate: TxPoolConfig::default().min_fee_rate,
+        small_verify_budget: if small_budget { Some(SMALL_VERIFY_BUDGET) } else { None },
         known_sigs,
         strict,
     };
     st.label(if case.mine { "mode:mine" } else { "mode:no-assembler" });
+    if small_budget {
+        st.label("pool:max_tx_verify_cycles-below-two-script-groups");
+    }
     let (_, far) = w.tree.window();
     for (oi, op) in case.ops.iter().enumerate() {
         match op {
